@@ -1,6 +1,6 @@
 (* Dispatch table of the model entry points used by the correspondence check. *)
 From Coq Require Import ZArith NArith List String.
-From Cfi Require Import Glue.Sx Model.Version Model.Dll Model.DllRun Py.PrimEntry Model.LineRun Model.ReaderRun.
+From Cfi Require Import Glue.Sx Model.Version Model.Dll Model.DllRun Py.PrimEntry Model.LineRun Model.ReaderRun Model.IO Model.View.
 Import ListNotations.
 Open Scope string_scope.
 
@@ -10,7 +10,8 @@ Definition entries : list (string * (sx -> sx)) :=
     ("C07", run_C07); ("C08", run_C08); ("C15", run_C15);
     ("PRIM", run_prim);
     ("FIELD", run_field); ("LINE", run_line);
-    ("REGFILE", run_regfile); ("REGSTREAM", run_regstream); ("BLOCKFILE", run_blockfile); ("SECTIONFILE", run_sectionfile) ].
+    ("REGFILE", run_regfile); ("REGSTREAM", run_regstream); ("BLOCKFILE", run_blockfile); ("SECTIONFILE", run_sectionfile);
+    ("C17", run_C17); ("C20", run_C20) ].
 
 Fixpoint find_entry (name : str) (es : list (string * (sx -> sx))) : option (sx -> sx) :=
   match es with
